@@ -22,7 +22,7 @@ ASSUMPTIONS = [
     "layers below every LGS altitude (cone factor > 0)",
     "global scale of the structure function may differ by the rounding of the published constant 0.17253 (<= 1e-3)",
 ]
-REQUIRED = ["slopecovariance.py:CovarianceMatrix.make_covariance_matrix", "slopecovariance.py:wfs_covariance"]
+REQUIRED = ["slopecovariance.py:CovarianceMatrix.make_covariance_matrix"]
 REQUIRED_COUNTERS = ["contract_evals:C01", "relation_groups"]
 TIMEOUT = {"quick": 900, "thorough": 5400}
 
@@ -77,7 +77,7 @@ def judge_matrix(ctx, M, cfg, tag):
     cc = None
     for l in range(cfg["n_layers"]):
         _, _, coef, _ = slopecov.slope_endpoints(cfg, l)
-        t = 2.0 * vk.variance(cfg["layer_r0s"][l], cfg["layer_L0s"][l]) * np.outer(coef, coef)
+        t = 2.0 * vk.variance(cfg["layer_r0s"][l], cfg["layer_L0s"][l]) * np.abs(np.outer(coef, coef))     # a noise bound: coef is negative for layers above the guide star
         cc = t if cc is None else cc + t
     tol = 2 * (cfg["n_layers"] + 2) * EPS32 * Rabs + 256 * EPS64 * cc + 1e-300
     err = np.abs(M64 - k * R)
